@@ -492,6 +492,14 @@ func (p *Program) canon(fn *Func, x ast.Expr, depth int) string {
 						}
 					}
 				}
+				if fvar, isVar := sel.Obj().(*types.Var); isVar && fvar.Embedded() && isStructOrPtr(fvar.Type()) {
+					// s.sub.f with sub embedded is the promoted field s.f
+					b := p.canon(fn, v.X, depth+1)
+					if strings.HasPrefix(b, "&recv") {
+						b = b[1:]
+					}
+					return b
+				}
 				base := p.canon(fn, v.X, depth+1)
 				if strings.HasPrefix(base, "&var:") || strings.HasPrefix(base, "&local:") || strings.HasPrefix(base, "&recv") || strings.HasPrefix(base, "&param:") {
 					base = base[1:] // (&x).f is x.f
@@ -975,4 +983,12 @@ func (f *Func) indexLoopOver(obj types.Object) ast.Expr {
 		}
 	}
 	return r.idxLoops[obj]
+}
+
+func isStructOrPtr(t types.Type) bool {
+	if pt, ok := t.Underlying().(*types.Pointer); ok {
+		t = pt.Elem()
+	}
+	_, ok := t.Underlying().(*types.Struct)
+	return ok
 }
